@@ -20,6 +20,10 @@ impl Node {
         let mut c = Command::new(exe)
             .arg("node")
             .arg(self.dir.path().join("db"))
+            // r-nacos probes the address of every persistent instance by TCP (every 60 s by default) and sets `healthy`
+            // from the result: a node-local observation of the environment, not part of the replicated state. The
+            // generated addresses do not exist; a node that runs for a minute would differ from one restarted meanwhile.
+            .env("RNACOS_NAMING_PERPETUAL_INSTANCE_PROBE_INTERVAL_SECOND", "2000000000")
             .stdin(Stdio::piped())
             .stdout(Stdio::piped())
             .stderr(if std::env::var("VERIF_RAW").is_ok() { Stdio::inherit() } else { Stdio::null() })
